@@ -22,10 +22,10 @@ NA = {
 CHECKS = {
  "C18": dict(
    level="exploration",
-   text="Seeded search over (a) repeated fresh-process runs of one invocation (different GOMAXPROCS, sandbox paths, PIDs; incl. a source aimed at Go map iteration order), (b) histories of 10-40 evaluations sharing parser, parsed trees and pooled decoder/encoder instances (eleven formats, two YAML decoders) in one process, each step compared with the same job alone in a fresh process, (c) interleavings of 2-4 concurrent evaluations under a scheduler that keeps exactly one goroutine runnable and takes every hand-off decision (operator dispatch, lexer token, parse phase, decode/print iteration, every Read/Write) from the scenario's choice list, each task compared with its solo result, and (d) the same task pools in a -race build whose goroutines walk in step (barrier at every yield point) so that unordered accesses are seen on a busy machine too (labelled: not deterministic simulation, evidence probabilistic). Job pools are themed (fourteen themes: operator families, codec objects with preferences of their own and from the format registry, input-less evaluations, string evaluators kept between calls, eval nested through the data). (a) also samples collection order on 64-300 entry collections. Sampling of histories and schedules: evidence, not proof.",
+   text="Seeded search over (a) repeated fresh-process runs of one invocation (different GOMAXPROCS, sandbox paths, PIDs; incl. a source aimed at Go map iteration order), (b) histories of 10-40 evaluations sharing parser, parsed trees, pooled decoder/encoder instances (eleven formats, two YAML decoders) and - for JSON/properties output, also NUL-separated and after a refused value - pooled printers in one process, each step compared with the same job alone in a fresh process, (c) interleavings of 2-4 concurrent evaluations under a scheduler that keeps exactly one goroutine runnable and takes every hand-off decision (operator dispatch, lexer token, parse phase, decode/print iteration, every Read/Write) from the scenario's choice list, each task compared with its solo result, and (d) the same task pools in a -race build whose goroutines walk in step (barrier at every yield point) so that unordered accesses are seen on a busy machine too (labelled: not deterministic simulation, evidence probabilistic), and (e) two real yq processes in one working directory and one TMPDIR (front matter, -i, files of one base name), the second run from start to end while the first is parked at a seeded step boundary of its own run (hook action gate on a named pipe), each compared with its run alone (O18.5). Job pools are themed (fourteen themes: operator families, codec objects with preferences of their own and from the format registry, input-less evaluations, string evaluators kept between calls, eval nested through the data). (a) also samples collection order on 64-300 entry collections. Sampling of histories and schedules: evidence, not proof.",
    ref="DESIGN.md §5.4",
    note="Trusted: pre-emption happens only at yield points (a hazard between two yields is left to the race detector); Go-runtime randomness (map order, temp names) is only sampled by repetition; time/random/env operators are excluded as the property says.",
-   technique="deterministic in-process scheduler (one runnable goroutine, seeded hand-offs at yield hooks) + history replay against solo reference processes + repeated-process determinism + Go race detector on free-running task pools",
+   technique="deterministic in-process scheduler (one runnable goroutine, seeded hand-offs at yield hooks) + history replay against solo reference processes + repeated-process determinism + two-process interleaving decided at a seeded step boundary (gate hook) + Go race detector on free-running task pools",
    engine="libsim + procsim"),
  "C11": dict(
    level="exploration",
@@ -50,7 +50,7 @@ CHECKS = {
    engine="procsim"),
  "C12": dict(
    level="fault_enumeration",
-   text="Per sampled (expression, file, flags, TMPDIR placement, link situation) scenario the finite set of step boundaries of the in-place protocol - incl. the sibling-temp fallback and the last-resort in-place overwrite - is decided completely by the snapshot invariant (target is OLD or NEW at every hook event, OLD never after NEW); errno/kill/partial-write/failed-close/read-error faults drawn inside the observed step and byte ranges, a runtime failure (panic) injected at a yield point so that yq's deferred finalisers run while it unwinds, the real EXDEV, a real volume without room for a second copy (tmpfs per run), and syscall-level faults by strace (rename, fsync, write, close, unlink, chmod, chown) are executed in fresh processes of the real binary and judged by exit-status/content/mode (O12.1/O12.2), front-matter appendix (O12.4) and frame (O12.5: nothing but the target changes; symbolic and hard links) oracles. Scenarios are sampled, fault points per scenario are enumerated: evidence, not proof.",
+   text="Per sampled (expression, file, flags, TMPDIR placement, link situation) scenario the finite set of step boundaries of the in-place protocol - incl. the sibling-temp fallback and the last-resort in-place overwrite - is decided completely by the snapshot invariant (target is OLD or NEW at every hook event, OLD never after NEW); errno/kill/partial-write/failed-close/read-error faults drawn inside the observed step and byte ranges, a runtime failure (panic) injected at a yield point so that yq's deferred finalisers run while it unwinds, the real EXDEV, a real volume without room for a second copy (tmpfs per run), standard output as a character device (what yq takes for a terminal), and syscall-level faults by strace (rename, fsync, write, close, unlink, chmod, chown) are executed in fresh processes of the real binary and judged by exit-status/content/mode (O12.1/O12.2), front-matter appendix (O12.4) and frame (O12.5: nothing but the target changes; symbolic and hard links) oracles. Scenarios are sampled, fault points per scenario are enumerated: evidence, not proof.",
    ref="DESIGN.md §5.3",
    note="Trusted: the verifhook step points sit immediately before the calls they name; a killed process keeps what it handed to the kernel (no power-loss model); NEW is the fault-free stdout of the same command without -i; synthesised errnos are routed only into the real call's own error branch.",
    technique="deterministic process-level fault simulation: seeded fault plans (errno / SIGKILL / short+failed writes / failed close / EXDEV) executed by hooks inside the real yq binary, snapshot invariant over the recorded trace, shrinking to a replayable scenario",
